@@ -453,8 +453,13 @@ pub enum Drive {
     TakeBursts(u8),
     /// `it.nth(0)` one at a time
     Nth0,
-    /// `it.by_ref().fold(..)` (every item up to the first `None`), then keep polling
-    Fold,
+    /// an internal-iteration method on `it.by_ref()`, then keep polling. The kinds
+    /// (`WALK_NAMES`): 0 `fold` and 1 `for_each` see every item up to the first `None`;
+    /// 2 `all(|x| x.is_ok())`, 3 `find(|x| x.is_err())` and 4 `position(|x| x.is_err())` stop at the first `Err`
+    Walk(u8),
+    /// `next()` until the first `Err` or `None`, then one such method on what is left (after an
+    /// `Err` it must see nothing), then keep polling
+    PollThenWalk(u8),
     /// `next()` until the first `Err` or `None`, then `collect_vec()` on the same iterator
     PollThenCollect,
     /// `next()` until the first `Err` or `None`, then `count()` on the same iterator (by value;
@@ -473,6 +478,8 @@ pub enum Drive {
     Last,
 }
 
+pub const WALK_NAMES: [&str; 5] = ["fold", "for_each", "all", "find", "position"];
+
 impl Drive {
     pub fn name(self) -> String {
         match self {
@@ -481,7 +488,8 @@ impl Drive {
             Drive::ByRefCollect => "by_ref_collect".into(),
             Drive::TakeBursts(n) => format!("take_bursts:{}", n),
             Drive::Nth0 => "nth0".into(),
-            Drive::Fold => "fold".into(),
+            Drive::Walk(k) => WALK_NAMES[(k as usize).min(4)].into(),
+            Drive::PollThenWalk(k) => format!("poll_then_{}", WALK_NAMES[(k as usize).min(4)]),
             Drive::PollThenCollect => "poll_then_collect_vec".into(),
             Drive::PollThenCount => "poll_then_count".into(),
             Drive::PollThenLast => "poll_then_last".into(),
@@ -497,7 +505,16 @@ impl Drive {
             "collect_vec" => Some(Drive::CollectVec),
             "by_ref_collect" => Some(Drive::ByRefCollect),
             "nth0" => Some(Drive::Nth0),
-            "fold" => Some(Drive::Fold),
+            "fold" => Some(Drive::Walk(0)),
+            "for_each" => Some(Drive::Walk(1)),
+            "all" => Some(Drive::Walk(2)),
+            "find" => Some(Drive::Walk(3)),
+            "position" => Some(Drive::Walk(4)),
+            "poll_then_fold" => Some(Drive::PollThenWalk(0)),
+            "poll_then_for_each" => Some(Drive::PollThenWalk(1)),
+            "poll_then_all" => Some(Drive::PollThenWalk(2)),
+            "poll_then_find" => Some(Drive::PollThenWalk(3)),
+            "poll_then_position" => Some(Drive::PollThenWalk(4)),
             "poll_then_collect_vec" => Some(Drive::PollThenCollect),
             "poll_then_count" => Some(Drive::PollThenCount),
             "poll_then_last" => Some(Drive::PollThenLast),
